@@ -598,6 +598,9 @@ def run(ctx):
         r_arity = probe_arity(ctx)
         from vlib import c20_pow
         n_pow = c20_pow.run(ctx)
+        # proof-level part: the pre-parser state machines (regenerated from /repo, proved total for all token lists)
+        from vlib import c20_preparse_part
+        n_pow += c20_preparse_part.part_preparse(ctx)
         r_cfg = probe_simplify_cfg(ctx)
         n_dense = 0
         if (coqrun.COQ / "C20" / "DenseTable.vo").exists():
